@@ -95,33 +95,7 @@ Definition run_stream_case (x : stream_case) : string :=
 (* ---- C04: (kind, start, count/value, reply pdu); the request is built as the API builds it.
    The PDU is passed as (length, big-endian number) - one hexadecimal literal parses much faster
    than a list of 250 numbers - and expanded here. ---- *)
-Fixpoint bytes_of_aux (len : nat) (x : N) (acc : list N) : list N :=
-  match len with O => acc | S l => bytes_of_aux l (N.shiftr x 8) (N.land x 255 :: acc) end.
-Definition bytes_of (len : nat) (x : N) : list N := bytes_of_aux len x [].
 Definition resp_case := (bool * N * N * N * N * (nat * N))%type.   (* literal?, style, kind, start, count/value, pdu *)
-
-Definition show_hex4 (v : N) : string := show_byte (v / 256) ++ show_byte (v mod 256).
-Fixpoint show_bits (l : list (N * bool)) : string :=
-  match l with [] => "" | (_, b) :: r => String (if b then "1" else "0")%char (show_bits r) end.
-Fixpoint show_regs (l : list (N * N)) : string :=
-  match l with [] => "" | (_, v) :: r => show_hex4 v ++ show_regs r end.
-Definition first_index {A} (l : list (N * A)) : string :=
-  match l with [] => "-" | (i, _) :: _ => show_N i end.
-Fixpoint consecutive {A} (i : N) (l : list (N * A)) : bool :=
-  match l with [] => true | (j, _) :: r => (i =? j) && consecutive (i + 1) r end.
-Definition show_indexed {A} (body : list (N * A) -> string) (l : list (N * A)) : string :=
-  match l with
-  | [] => "OK - -"
-  | (i, _) :: _ => if consecutive i l then "OK " ++ show_N i ++ " " ++ body l else "OKX"
-  end.
-Definition show_response (r : response) : string :=
-  match r with
-  | RespBits l => show_indexed show_bits l
-  | RespRegisters l => show_indexed show_regs l
-  | RespCoil i v => "OK " ++ show_N i ++ " " ++ (if v then "1" else "0")
-  | RespRegister i v => "OK " ++ show_N i ++ " " ++ show_hex4 v
-  | RespRange s n => "OK " ++ show_N s ++ " " ++ show_N n
-  end.
 
 Definition run_resp (x : resp_case) : string :=
   let '(lit, style, kind, s, c, (plen, pnum)) := x in
